@@ -3,7 +3,10 @@ package main
 import (
 	"errors"
 	"fmt"
+	"runtime/metrics"
 	"strings"
+	"sync"
+	"sync/atomic"
 	"time"
 
 	"go.starlark.net/lib/json"
@@ -137,6 +140,9 @@ type TaskCtx struct {
 	// violations detected by oracle built-ins while the program runs
 	HostViol []Violation
 
+	// NoFaults disables the fault plan (post-run probing of the thread).
+	NoFaults bool
+
 	// OnStep, if set, is called at every scheduling point of the VM
 	// (white-box invariants that must hold throughout a run).
 	OnStep func()
@@ -179,6 +185,11 @@ func installHooks() {
 		}
 		c.Exec++
 		c.OpClass[opClass(op)]++
+		if memBlown.Load() {
+			th.Cancel("sim-memory-watchdog")
+		} else if c.Exec&255 == 0 {
+			memWatch(th)
+		}
 		if c.Model != nil && c.RegAtCheckSet {
 			if c.ExecWhileCancelled == 0 {
 				c.FirstBadReason, c.FirstBadExec = c.RegAtCheck, c.Exec
@@ -198,6 +209,44 @@ func installHooks() {
 			c.ExecSeqTail[c.Exec&7] = seq
 		}
 	}
+}
+
+// memWatch cancels a thread whose process has grown past the memory budget
+// (a generated program that doubles a list in a loop is a generator accident,
+// not a finding: memory exhaustion is outside every claimed property). The
+// scenario is then discarded, never reported.
+var (
+	memBlown   atomic.Bool
+	memSample  = []metrics.Sample{{Name: "/memory/classes/heap/objects:bytes"}}
+	memBudget  = uint64(256 << 20)
+	memWatchMu sync.Mutex
+)
+
+func memWatch(th *starlark.Thread) {
+	memWatchMu.Lock()
+	metrics.Read(memSample)
+	v := memSample[0].Value.Uint64()
+	memWatchMu.Unlock()
+	if v > memBudget {
+		memBlown.Store(true)
+		th.Cancel("sim-memory-watchdog")
+	}
+}
+
+// startMemWatchdog samples the heap every few milliseconds of real time; its
+// only effect is to discard a runaway scenario, so it cannot influence any
+// execution that is kept.
+func startMemWatchdog() {
+	go func() {
+		sample := []metrics.Sample{{Name: "/memory/classes/heap/objects:bytes"}}
+		for {
+			time.Sleep(4 * time.Millisecond)
+			metrics.Read(sample)
+			if sample[0].Value.Uint64() > memBudget {
+				memBlown.Store(true)
+			}
+		}
+	}()
 }
 
 // opClass groups opcodes into a few classes for coverage measures. It does
@@ -287,6 +336,9 @@ func (c *TaskCtx) yield() {
 
 // faultFor looks up the fault plan. trigger is "call" or "fault".
 func (c *TaskCtx) faultFor(trigger string, k uint64) *Fault {
+	if c.NoFaults {
+		return nil
+	}
 	for i := range c.W.Faults {
 		f := &c.W.Faults[i]
 		if f.Task == c.Idx && f.Trigger == trigger && f.K == k {
